@@ -24,6 +24,9 @@ def gen(ctx):
     yield dict(kind="blk1", hist=[[7]], b=1, T=3, rule="probe:5", dtype="int32")
     yield dict(kind="blk2", hist=[[[1, 2, 3, 4], [5, 6, 7, 8]]], b=[2, 2], T=3, rule="rot", dtype="int32")
     yield dict(kind="blk2", hist=[[[1, 2, 3], [4, 5, 6]]], b=[2, 3], T=3, rule="rev", dtype="int32")
+    for (N, b) in [(70000, 2), (66000, 3)]:
+        yield dict(kind="blk1", hist=[[(i * 7 + i // 5) % 4 for i in range(N)]], b=b, T=3, rule="sumrot", dtype="int32")
+    yield dict(kind="blk2", hist=[[[(3 * i + j) % 4 for j in range(260)] for i in range(258)]], b=[2, 2], T=3, rule="rot", dtype="int32")
     for _ in range(ctx.n(400, 4000)):
         b = rng.randint(1, 5)
         m = rng.randint(1, max(1, 30 // b))
@@ -52,6 +55,8 @@ def gen(ctx):
 
 
 def line(c):
+    if len(c["hist"][-1]) > 2000 or (c["kind"] == "blk2" and len(c["hist"][-1]) * len(c["hist"][-1][0]) > 4000):
+        return None        # large inputs: oracle only
     if c["kind"] == "blk1":
         return "evolve_block hist=%s b=%d T=%d rule=%s" % (fmt.mat(c["hist"]), c["b"], c["T"], c["rule"])
     return "evolve2d_block hist=%s b=%d,%d T=%d rule=%s" % (fmt.hist(c["hist"]), c["b"][0], c["b"][1], c["T"], c["rule"])
@@ -79,6 +84,8 @@ def impl(c):
     ca, rule, res, exc = run(c)
     if exc is not None:
         return fmt.err(exc)
+    if line(c) is None:
+        return "ok big states=%d" % len(res)
     body = fmt.mat(res.tolist()) if c["kind"] == "blk1" else fmt.hist(res.tolist())
     return "ok %s=%s calls=%s" % ("rows" if c["kind"] == "blk1" else "grids", body, calls_str(rule.log))
 
